@@ -396,16 +396,29 @@ class ImportURI(scoping.ModelLoader):
         if ret:
             return ret
 
+        def lookup_in_other_model(m):
+            try:
+                return self.scope_provider(m, attr, obj_ref)
+            except TextXSemanticError as e:
+                # The underlying provider locates the error in the model it
+                # searches. The offending text is the reference, which is
+                # located in the referencing model.
+                from textx.scoping.tools import get_parser
+
+                e.line, e.col = get_parser(obj).pos_to_linecol(obj_ref.position)
+                e.filename = model._tx_filename
+                raise
+
         # 2) do we have loaded models?
         for m in model_repository.local_models:
-            ret = self.scope_provider(m, attr, obj_ref)
+            ret = lookup_in_other_model(m)
             if ret:
                 return ret
 
         # 3) Use builtin models as a fallback if provided
         if model._tx_metamodel.builtin_models:
             for m in model._tx_metamodel.builtin_models:
-                ret = self.scope_provider(m, attr, obj_ref)
+                ret = lookup_in_other_model(m)
                 if ret:
                     return ret
         return None
